@@ -140,6 +140,103 @@ theorem C08_conn_discard_total (pool : Pool) (c : InConn) (hp : PInv pool) (he :
     have e : ((n.toNat : Nat) : Int) = n := by omega
     rw [e] at this; exact this
 
+/-! ### two connections, one ring pool, any interleaving of their read events -/
+
+structure Two where
+  pool : Pool := {}
+  c1 : InConn := {}
+  c2 : InConn := {}
+  closed1 : Bool := false
+  closed2 : Bool := false
+  msgs1 : List CMsg := []
+  msgs2 : List CMsg := []
+
+/-- a read event of the first (`false`) or the second (`true`) connection; a closed connection reads no more -/
+def Two.step (slot : Bytes → Nat) (limit : Nat) (t : Two) (ev : Bool × Bytes) : Two :=
+  if ev.1 then
+    if t.closed2 then t
+    else
+      let r := ConnIn.feed goTables slot limit t.pool t.c2 ev.2
+      { t with pool := r.2.1, c2 := r.2.2.1, closed2 := r.2.2.2, msgs2 := t.msgs2 ++ r.1 }
+  else
+    if t.closed1 then t
+    else
+      let r := ConnIn.feed goTables slot limit t.pool t.c1 ev.2
+      { t with pool := r.2.1, c1 := r.2.2.1, closed1 := r.2.2.2, msgs1 := t.msgs1 ++ r.1 }
+
+/-- the same history over two independent "unconsumed bytes" loops -/
+structure AbsTwo where
+  v1 : Bytes := []
+  v2 : Bytes := []
+  closed1 : Bool := false
+  closed2 : Bool := false
+  msgs1 : List CMsg := []
+  msgs2 : List CMsg := []
+
+def AbsTwo.step (slot : Bytes → Nat) (limit : Nat) (a : AbsTwo) (ev : Bool × Bytes) : AbsTwo :=
+  if ev.1 then
+    if a.closed2 then a
+    else
+      let r := feed slot limit a.v2 ev.2
+      { a with v2 := r.2.1, closed2 := r.2.2, msgs2 := a.msgs2 ++ r.1 }
+  else
+    if a.closed1 then a
+    else
+      let r := feed slot limit a.v1 ev.2
+      { a with v1 := r.2.1, closed1 := r.2.2, msgs1 := a.msgs1 ++ r.1 }
+
+/-- what relates the two: same requests, same closed flags, and - for a connection still open - its view is the
+    abstract leftover, held entirely in its ring; the pool and both rings are well-formed -/
+structure TwoRel (t : Two) (a : AbsTwo) : Prop where
+  pool : PInv t.pool
+  e1 : EInv t.c1.inb
+  e2 : EInv t.c2.inb
+  m1 : t.msgs1 = a.msgs1
+  m2 : t.msgs2 = a.msgs2
+  f1 : t.closed1 = a.closed1
+  f2 : t.closed2 = a.closed2
+  o1 : a.closed1 = false → t.c1.view = a.v1 ∧ t.c1.buf = []
+  o2 : a.closed2 = false → t.c2.view = a.v2 ∧ t.c2.buf = []
+
+theorem two_step (slot : Bytes → Nat) (limit : Nat) (t : Two) (a : AbsTwo) (h : TwoRel t a) (ev : Bool × Bytes) :
+    TwoRel (t.step slot limit ev) (a.step slot limit ev) := by
+  obtain ⟨who, chunk⟩ := ev
+  cases who with
+  | true =>
+    simp only [Two.step, AbsTwo.step, if_true]
+    cases hc : a.closed2 with
+    | true => simp only [h.f2, hc, if_true]; exact h
+    | false =>
+      simp only [h.f2, hc, Bool.false_eq_true, if_false]
+      obtain ⟨v, b⟩ := h.o2 hc
+      obtain ⟨f1, f2, f3, f4, f5⟩ := C08_conn_feed slot limit t.pool t.c2 chunk h.pool h.e2 b
+      rw [v] at f1 f2 f5
+      exact ⟨f3, h.e1, f4, h.m1, by simp only; rw [h.m2, f1], h.f1, f2, h.o1, f5⟩
+  | false =>
+    simp only [Two.step, AbsTwo.step, Bool.false_eq_true, if_false]
+    cases hc : a.closed1 with
+    | true => simp only [h.f1, hc, if_true]; exact h
+    | false =>
+      simp only [h.f1, hc, Bool.false_eq_true, if_false]
+      obtain ⟨v, b⟩ := h.o1 hc
+      obtain ⟨f1, f2, f3, f4, f5⟩ := C08_conn_feed slot limit t.pool t.c1 chunk h.pool h.e1 b
+      rw [v] at f1 f2 f5
+      exact ⟨f3, f4, h.e2, by simp only; rw [h.m1, f1], h.m2, f2, h.f2, f5, h.o2⟩
+
+/-- **two connections sharing the ring pool**: however their read events interleave, each connection hands the
+    handler exactly what it would alone - rings travel between them through the pool (a ring emptied by one is
+    taken by the other) without carrying a byte across -/
+theorem C08_conn_interleaved (slot : Bytes → Nat) (limit : Nat) (evs : List (Bool × Bytes)) :
+    TwoRel (evs.foldl (Two.step slot limit) {}) (evs.foldl (AbsTwo.step slot limit) {}) := by
+  have h0 : TwoRel {} {} :=
+    ⟨pinv_empty, fun _ h => by simp at h, fun _ h => by simp at h, rfl, rfl, rfl, rfl,
+     fun _ => ⟨rfl, rfl⟩, fun _ => ⟨rfl, rfl⟩⟩
+  generalize ({} : Two) = t at h0 ⊢
+  generalize ({} : AbsTwo) = a at h0 ⊢
+  induction evs generalizing t a with
+  | nil => exact h0
+  | cons ev rest ih => exact ih _ _ (two_step slot limit t a h0 ev)
+
 /- non-vacuity: "GET a" then "PING", cut inside the first request and again inside the second: the leftover
    travels through the ring twice; kernel-evaluated -/
 example :
